@@ -1,5 +1,6 @@
 """C12 - tabulation is deterministic; evaluation is pure (DESIGN.md section 4, C12)."""
 import ast
+import re
 
 from .. import ep
 from ..model import AnalysisError, ClassInfo, FuncInfo
@@ -37,6 +38,8 @@ def run(chk):
     chk.rule("C12.O6", "no nondeterminism source is used", 1)
     chk.attempt("O1", lambda: hash_order(chk, P))
     chk.attempt("O1s", lambda: taint_selftest(chk))
+    chk.rule("C12.O7", "no method writes instance state except setters, construction helpers and write-once cache fills", 10)
+    chk.attempt("O7", lambda: instance_state(chk, P))
     chk.attempt("O2", lambda: global_state(chk, P))
     chk.attempt("O3", lambda: mutable_defaults(chk, P))
     chk.attempt("O4", lambda: formula_purity(chk, P))
@@ -499,6 +502,82 @@ def _construction_only(ci, fi, depth=0):
     if not callers or fi.is_property or fi.is_setter:
         return False
     return all(m.name == "__init__" or _construction_only(c, m, depth + 1) for c, m in callers)
+
+
+def _under_any_is_none(fnode, target):
+    """target lies in the body of an 'if self.<something> is None' / 'if not self.<something>' test"""
+    def guarded(node, under):
+        if node is target:
+            return under
+        for field, val in ast.iter_fields(node):
+            kids = val if isinstance(val, list) else [val]
+            for k in kids:
+                if isinstance(k, ast.AST):
+                    u = under
+                    if isinstance(node, ast.If) and field == "body":
+                        t = ast.unparse(node.test)
+                        if re.search(r"self\.\w+ is None", t) or re.search(r"not self\.\w+", t):
+                            u = True
+                    r = guarded(k, u)
+                    if r is not None:
+                        return r
+        return None
+    return bool(guarded(fnode, False))
+
+
+def _cache_fill_only(ci, fi, depth=0):
+    """the method runs only as part of filling a write-once cache (every call site is under an 'is None' guard) or of
+    construction"""
+    if depth > 4 or fi.is_property or fi.is_setter:
+        return False
+    callers = []
+    for c in [ci] + ci.program.subclasses(ci, strict=True) + [b for b in ci.mro() if hasattr(b, "methods") and b is not ci]:
+        for m in list(c.methods.values()) + list(getattr(c, "setters", {}).values()):
+            for node in ast.walk(m.node):
+                if isinstance(node, ast.Call) and isinstance(node.func, ast.Attribute) and node.func.attr == fi.name \
+                        and isinstance(node.func.value, ast.Name) and node.func.value.id == "self":
+                    callers.append((c, m, node))
+    if not callers:
+        return False
+    for c, m, node in callers:
+        if m.name == "__init__" or _under_any_is_none(m.node, node):
+            continue
+        if _construction_only(c, m) or _cache_fill_only(c, m, depth + 1):
+            continue
+        return False
+    return True
+
+
+def instance_state(chk, P):
+    """evaluating, writing or querying an object does not change it: every store to self.<attr> outside __init__ is a property
+    setter (an explicit mutation by the caller), part of construction, or the single fill of a write-once cache"""
+    n = 0
+    for ci in sorted(P.classes.values(), key=lambda c: c.fq):
+        if not ci.module.name.startswith("atsim"):
+            continue
+        for name, fi in sorted(ci.methods.items()):
+            if name in ("__init__", "__setattr__", "__setstate__"):
+                continue
+            for node in ast.walk(fi.node):
+                tg = []
+                if isinstance(node, ast.Assign):
+                    tg = node.targets
+                elif isinstance(node, (ast.AugAssign, ast.AnnAssign)):
+                    tg = [node.target]
+                elif isinstance(node, ast.Call) and isinstance(node.func, ast.Name) and node.func.id == "setattr" and node.args \
+                        and isinstance(node.args[0], ast.Name) and node.args[0].id == "self":
+                    tg = [ast.Attribute(value=node.args[0], attr=ast.unparse(node.args[1]) if len(node.args) > 1 else "?", ctx=ast.Store())]
+                for t in tg:
+                    for el in (t.elts if isinstance(t, (ast.Tuple, ast.List)) else [t]):
+                        if not (isinstance(el, ast.Attribute) and isinstance(el.value, ast.Name) and el.value.id == "self"):
+                            continue
+                        n += 1
+                        ok = fi.is_setter or _construction_only(ci, fi) or _under_is_none(fi.node, node, el.attr) \
+                            or _only_called_under_is_none(ci, fi, el.attr) or _cache_fill_only(ci, fi)
+                        chk.ob("C12.O7", "%s.%s stores self.%s only as setter, construction or write-once cache fill" % (ci.name, name, el.attr),
+                               ok, site=fi.site(node), found=ast.unparse(node)[:80] if not ok else None,
+                               expect="no instance state written while evaluating / writing", key="C12.O7|%s.%s|%s" % (ci.name, name, el.attr))
+    return n
 
 
 def nondeterminism(chk, P):
